@@ -270,4 +270,4 @@ def parts(tier):
     q = tier == "quick"
     versions = QUICK if q else SCHEMAS
     return [Part("released", oracle_released, enumerate_fn=make_released_enum(SCHEMAS), exhaustive=True),
-            Part("seeded", oracle_seeded, strategy=seeded_case(versions), n=240 if q else 16000)]
+            Part("seeded", oracle_seeded, strategy=seeded_case(versions), n=480 if q else 16000)]
